@@ -59,7 +59,7 @@ manifest = {
         "kind_free_text": "cargo workspace of one harness binary per property (props/cNN), built against /repo/crates/* by path; proptest-driven generated search with explicit oracles, shrinking, JSON replay files, known-finding matching (vh-common)",
     }],
     "checks": checks,
-    "notes": "All checks: ./run.sh <ID> quick|thorough|replay <file>. Exit 0 held / 1 VIOLATION / 2 inconclusive. Known findings in /verif/known_findings.txt (64 known findings, 48 fixed defects). Hook code is additive; one bookkeeping blemish: hook commit 668f76e (H2 payload extension, rewrites two earlier hook statements) also carries the two production lines of fix 40c357f in sase.rs values_compare, because two agents staged the same file concurrently (see DESIGN.md 7.1). Thorough tier of C20/C41/C43/C46 additionally runs a libFuzzer campaign (tools/fuzz.sh).",
+    "notes": "All checks: ./run.sh <ID> quick|thorough|replay <file>. Exit 0 held / 1 VIOLATION / 2 inconclusive. Known findings in /verif/known_findings.txt (64 known findings, 47 fixed-defect entries, 46 fix: commits). Hook code is additive; one bookkeeping blemish: hook commit 668f76e (H2 payload extension, rewrites two earlier hook statements) also carries the two production lines of fix 40c357f in sase.rs values_compare, because two agents staged the same file concurrently (see DESIGN.md 7.1). Thorough tier of C20/C41/C43/C46 additionally runs a libFuzzer campaign (tools/fuzz.sh).",
     "not_applicable": [{"property_id": id, "reason": NA.get(id, NOT_YET)} for id in ids if id not in claimed],
 }
 json.dump(manifest, open(os.path.join(HERE, "MANIFEST.json"), "w"), indent=1)
